@@ -20,6 +20,8 @@ import (
 	"encoding/pem"
 	"fmt"
 	"io/ioutil"
+	"net/http"
+	"net/url"
 	"os"
 	"path/filepath"
 	"strings"
@@ -189,6 +191,38 @@ func c09Lives(t *testing.T, res *verifResult) (string, string) {
 					res.hit(verifHit{Key: "C09:published-ca-not-for-signing-key:" + shape, Oracle: "after unsealing, an X.509 certificate a user asks for is issued and verifies under the certificates of /public/x509ca",
 						What: fmt.Sprintf("run %d of the life [%s] (key files {%s}): POST /certgen/alice type=x509 with a valid session: %s; /public/x509ca carries certificates for keys %v, the signer is key %d", ri, strings.Join(append(append([]string{}, shapes...), shape), " ; "), v.shape(), why, caNames, mainName),
 						Case: cs, Observed: map[string]interface{}{"sshca": sshNames, "x509ca": caNames, "certgen": why}})
+				}
+				// whatever else the run signs verifies against what it publishes: an SSH certificate, a login cookie
+				if signerSet {
+					for _, pr := range []struct {
+						name string
+						req  *http.Request
+					}{
+						{"certgen-ssh", func() *http.Request {
+							r := verifCertgenRequest("POST", "alice", "ssh", keys.sshPub, nil, nil)
+							r.AddCookie(env.cookie("alice", AuthTypePassword|AuthTypeU2F))
+							return r
+						}()},
+						{"login-password", func() *http.Request {
+							f := url.Values{}
+							f.Set("username", "alice")
+							f.Set("password", "alicepw")
+							return verifNewRequest("POST", "/api/v0/login", f)
+						}()},
+					} {
+						prr, _ := env.serve(pr.req)
+						arts := c09Artefacts(prr, nil)
+						if len(arts) == 0 {
+							res.hit(verifHit{Key: "C09:nothing-signed-after-restart:" + pr.name, Oracle: "an unsealed server issues what it is asked for", What: fmt.Sprintf("%s after run %s answered %d without a signed artefact", pr.name, shape, prr.Code), Case: cs})
+						}
+						for _, a := range arts {
+							if pub.identify(a) == 0 {
+								res.hit(verifHit{Key: fmt.Sprintf("C09:signed-by-unpublished-key:kind%d:restart", a.kind), Oracle: "after unsealing the published CA / ssh / JWKS keys include the key that signs",
+									What: fmt.Sprintf("%s after run %d of the life [%s]: artefact of kind %d does not verify against any published key", pr.name, ri, strings.Join(append(append([]string{}, shapes...), shape), " ; "), a.kind), Case: cs, Observed: a.raw})
+							}
+							res.bump(fmt.Sprintf("life_artefact_kind%d", a.kind))
+						}
+					}
 				}
 			} else if signerSet {
 				res.hit(verifHit{Key: "C09:published-unavailable", Oracle: "after unsealing /public/x509ca, /public/sshca and the JWKS are served", What: "one of the three endpoints failed after run " + shape, Case: cs})
